@@ -103,25 +103,20 @@ theorem itemsNotOf_get (its : Items) (loc : String) (x : String × String) :
   rw [this]
   by_cases h : x.1 = loc <;> simp [h]
 
-@[simp] theorem evClear_cfg (a : ASys) (loc : String) : (evClear a loc).cfg = a.cfg := by
-  unfold evClear; split <;> rfl
-@[simp] theorem evClear_kind (a : ASys) (loc : String) : (evClear a loc).kind = a.kind := by
-  unfold evClear; split <;> rfl
+@[simp] theorem evClear_cfg (a : ASys) (loc : String) : (evClear a loc).cfg = a.cfg := rfl
+@[simp] theorem evClear_kind (a : ASys) (loc : String) : (evClear a loc).kind = a.kind := rfl
 
 theorem evClear_items (a : ASys) (loc : String) (x : String × String) :
     aGet (evClear a loc).items x = if x.1 = loc then none else aGet a.items x := by
-  unfold evClear; split <;> simp [itemsNotOf_get]
+  unfold evClear; simp [itemsNotOf_get]
 
-theorem evClear_reg_indexed (a : ASys) (loc : String) (h : a.kind = .indexed) (k : RegKey) :
+theorem evClear_reg (a : ASys) (loc : String) (k : RegKey) :
     aGet (evClear a loc).reg k =
       if (decide (k = keyOf a.cfg loc k.2) && schedAt a loc k.2) = true then none else aGet a.reg k := by
   have := aGet_filterKey (fun (k : RegKey) => !(decide (k = keyOf a.cfg loc k.2) && schedAt a loc k.2)) a.reg k
-  simp only [evClear, h]
+  simp only [evClear]
   rw [this]
   cases hc : (decide (k = keyOf a.cfg loc k.2) && schedAt a loc k.2) <;> simp
-
-theorem evClear_reg_linear (a : ASys) (loc : String) (h : a.kind = .linear) : (evClear a loc).reg = a.reg := by
-  simp [evClear, h]
 
 @[simp] theorem evCronReset_cfg (a : ASys) : (evCronReset a).cfg = a.cfg := by
   unfold evCronReset; split <;> rfl
@@ -181,19 +176,6 @@ theorem plain_drop {a : ASys} {loc : String} {ids : List String} (hp : Plain a (
   rcases this with h | h
   · exact absurd hmem (by simpa using h)
   · exact h
-
-theorem plain_clear_linear {a : ASys} {loc : String} (hp : Plain a (.clear loc) = true) (hk : a.kind = .linear) :
-    ∀ i it, aGet a.items (loc, i) = some it → it.sched = "" := by
-  intro i it hi
-  simp only [Plain, hk, Bool.or_eq_true] at hp
-  rcases hp with h | h
-  · simp at h
-  · rw [List.all_eq_true] at h
-    have hm : ((loc, i), it) ∈ itemsOf a.items loc := by
-      unfold itemsOf
-      rw [List.mem_filter]
-      exact ⟨aGet_some_mem hi, by simp⟩
-    simpa using h _ hm
 
 /-! ## `RegOK` is preserved by every `Plain` event -/
 
@@ -411,18 +393,8 @@ theorem schedAt_of {a : ASys} {loc id : String} {it : AItem} (hg : aGet a.items 
 
 theorem regOK_clear {a : ASys} {loc : String} (h : RegOK a) (hu : Uniq a)
     (hp : Plain a (.clear loc) = true) : RegOK (evClear a loc) := by
-  cases hk : a.kind with
-  | linear =>
-    apply regOK_drop_unscheduled (fun x => x.1 = loc) h (evClear_cfg a loc)
-      (fun k => by rw [evClear_reg_linear a loc hk]) (evClear_items a loc)
-    intro x it hx hget
-    obtain ⟨l, i⟩ := x
-    simp only at hx
-    subst hx
-    exact plain_clear_linear hp hk i it hget
-  | indexed =>
-    intro k e
-    rw [evClear_reg_indexed a loc hk k]
+  · intro k e
+    rw [evClear_reg a loc k]
     cases hc : (decide (k = keyOf a.cfg loc k.2) && schedAt a loc k.2) with
     | true =>
       simp only [if_true]
@@ -692,13 +664,10 @@ theorem evRemTop_reg_sub (a : ASys) (loc id : String) (k : RegKey) (e : RegEntry
 
 theorem evClear_reg_sub (a : ASys) (loc : String) (k : RegKey) (e : RegEntry)
     (h : aGet (evClear a loc).reg k = some e) : aGet a.reg k = some e := by
-  cases hk : a.kind with
-  | linear => rw [evClear_reg_linear a loc hk] at h; exact h
-  | indexed =>
-    rw [evClear_reg_indexed a loc hk k] at h
-    cases hc : (decide (k = keyOf a.cfg loc k.2) && schedAt a loc k.2)
-    · rw [hc] at h; simpa using h
-    · rw [hc] at h; simp at h
+  rw [evClear_reg a loc k] at h
+  cases hc : (decide (k = keyOf a.cfg loc k.2) && schedAt a loc k.2)
+  · rw [hc] at h; simpa using h
+  · rw [hc] at h; simp at h
 
 theorem evTick_reg_sub (a : ASys) (key : RegKey) (en co : Bool) (k : RegKey) (e' : RegEntry)
     (h : aGet (evTick a key en co).1.reg k = some e') : aGet a.reg k = some e' := by
